@@ -7,8 +7,8 @@ impl PaddingFactory {
     pub uninterp spec fn may_draw(&self, pkt: u32, sizes: Seq<i32>) -> bool;
     pub uninterp spec fn stop_spec(&self) -> u32;
     #[verifier::external_body]
-    pub fn generate_record_payload_sizes(&self, pkt: u32) -> (r: Vec<i32>)
-        ensures self.may_draw(pkt, r@)
+    pub fn generate_record_payload_sizes(&self, pkt: u32, dl: &mut Ghost<Seq<(u32, Seq<i32>)>>) -> (r: Vec<i32>)
+        ensures self.may_draw(pkt, r@), final(dl)@ == old(dl)@.push((pkt, r@))   // dl: ghost log of every draw (line, sizes)
     { unimplemented!() }
     #[verifier::external_body]
     pub fn stop(&self) -> (r: u32) ensures r == self.stop_spec() { unimplemented!() }
